@@ -404,6 +404,9 @@ func (st *state) hook(c *netctl.Conn, dir string, key, ver int16, frame []byte) 
 // callback is the ShareAckCallback of member name.
 func (st *state) callback(name string) func(*kgo.Client, kgo.ShareAckResults) {
 	return func(_ *kgo.Client, rs kgo.ShareAckResults) {
+		// A user callback takes time: FlushAcks must still wait for its end
+		// (virtual millisecond; everything else runs to quiescence meanwhile).
+		time.Sleep(time.Millisecond)
 		st.mu.Lock()
 		defer st.mu.Unlock()
 		m := st.member(name)
